@@ -3,8 +3,21 @@ package exec
 import (
 	"sort"
 
+	"github.com/ChrisTrenkamp/xsel/node"
 	"github.com/ChrisTrenkamp/xsel/store"
 )
+
+// Attribute and namespace nodes are not children of their parent element, so
+// they have no siblings and the document order around them is that of the
+// parent element.
+func isAttributeOrNamespace(cursor store.Cursor) bool {
+	switch cursor.Node().(type) {
+	case node.Attribute, node.Namespace:
+		return true
+	}
+
+	return false
+}
 
 func unique(s []store.Cursor) []store.Cursor {
 	if len(s) == 0 {
@@ -151,6 +164,12 @@ func appendFollowing(cursor store.Cursor, result []store.Cursor) []store.Cursor 
 		return result
 	}
 
+	if isAttributeOrNamespace(cursor) {
+		// Everything below the parent element follows its attributes and namespaces.
+		result = appendDescendant(parent, result)
+		return appendFollowing(parent, result)
+	}
+
 	found := false
 
 	for _, i := range parent.Children() {
@@ -181,7 +200,7 @@ func selectFollowingSibling(nodeSet NodeSet) Result {
 func appendFollowingSibling(cursor store.Cursor, result []store.Cursor) []store.Cursor {
 	parent := cursor.Parent()
 
-	if cursor.Pos() == 0 {
+	if cursor.Pos() == 0 || isAttributeOrNamespace(cursor) {
 		return result
 	}
 
@@ -240,6 +259,10 @@ func appendPreceding(cursor store.Cursor, result []store.Cursor) []store.Cursor 
 		return result
 	}
 
+	if isAttributeOrNamespace(cursor) {
+		return appendPreceding(parent, result)
+	}
+
 	found := false
 	children := parent.Children()
 
@@ -271,7 +294,7 @@ func selectPrecedingSibling(nodeSet NodeSet) Result {
 func appendPrecedingSibling(cursor store.Cursor, result []store.Cursor) []store.Cursor {
 	parent := cursor.Parent()
 
-	if cursor.Pos() == 0 {
+	if cursor.Pos() == 0 || isAttributeOrNamespace(cursor) {
 		return result
 	}
 
